@@ -18,7 +18,10 @@ type MerkleBlock struct {
 
 // DecodeBinary implements the Serializable interface.
 func (m *MerkleBlock) DecodeBinary(br *io.BinReader) {
-	m.Header = &block.Header{}
+	// The header can be preset for its StateRootEnabled setting.
+	if m.Header == nil {
+		m.Header = &block.Header{}
+	}
 	m.Header.DecodeBinary(br)
 
 	txCount := int(br.ReadVarUint())
